@@ -164,6 +164,40 @@ def main(which="C01"):
                 if "tool = self.tools[tool_name]" not in s_ or "tool_name = tree.body.func.id" not in s_:
                     bad.append("the executed tool is not the registered tool addressed by the call's Name")
         ob(f"C01/Mitochondria.{m}/effect[calls-allowlisted]", bad)
+    # ---- C02: the text handed to the parser IS the given expression (up to surrounding whitespace): a textual rewrite before parsing also rewrites
+    # the contents of string literals and turns refused operators into allowed ones, so the value computed is no longer Python's value of the text
+    WS = {"strip", "lstrip", "rstrip"}
+    for m in ("_glycolysis", "_krebs_cycle", "_oxidative_phosphorylation"):
+        fn = meth.get(m)
+        if fn is None:
+            continue
+        per = {}
+        derived = {"expression"}
+
+        def clean(e):
+            """e is the parameter, or a whitespace-stripped copy of a clean value"""
+            if isinstance(e, ast.Name):
+                return e.id in derived
+            if isinstance(e, ast.Call) and isinstance(e.func, ast.Attribute) and e.func.attr in WS and not e.args:
+                return clean(e.func.value)
+            return False
+        for st in ast.walk(fn):
+            if isinstance(st, ast.Assign) and len(st.targets) == 1 and isinstance(st.targets[0], ast.Name):
+                tn = st.targets[0].id
+                mentions = any(isinstance(x_, ast.Name) and x_.id in derived for x_ in ast.walk(st.value))
+                if clean(st.value):
+                    derived.add(tn)
+                elif tn in derived and mentions:
+                    how = sorted({x_.func.attr for x_ in ast.walk(st.value) if isinstance(x_, ast.Call) and isinstance(x_.func, ast.Attribute)} - WS)
+                    key = f"C02/Mitochondria.{m}/callsite-pre[parses-the-given-text]#{'+'.join(how) or 'rewrite'}"
+                    per.setdefault(key, []).append(f"line {st.lineno}: the expression text is rewritten before it is parsed: {ast.unparse(st)[:90]}")
+        for c in ast.walk(fn):
+            if isinstance(c, ast.Call) and ast.unparse(c.func) == "ast.parse" and c.args and not clean(c.args[0]):
+                key = f"C02/Mitochondria.{m}/callsite-pre[parses-the-given-text]#argument"
+                per.setdefault(key, []).append(f"line {c.lineno}: ast.parse is given {ast.unparse(c.args[0])[:60]}, not the expression text")
+        ob(f"C02/Mitochondria.{m}/callsite-pre[parses-the-given-text]", [])
+        for k_, v_ in per.items():
+            ob(k_, v_)
     # ---- no dynamic execution reachable in the anchored files
     bad = []
     for rel in (F, "operon_ai/core/agent.py"):
@@ -184,8 +218,19 @@ def main(which="C01"):
     ob("C01/Mitochondria.metabolize/post[len-guard-first]", bad)
     sel = {k: v for k, v in obs.items() if k.startswith(which + "/")}
     failed = {k: v for k, v in sel.items() if v}
+    # failing scan obligations that are recorded known findings (matched by obligation name) are reported as such, not as violations
+    known_seen = []
+    try:
+        kf = json.load(open(os.path.join(ROOT, "known_findings.json"))).get("findings", [])
+    except (OSError, ValueError):
+        kf = []
+    known = {f["obligation"] for f in kf if f.get("property") == which and f.get("status", "open") == "open" and f.get("obligation")}
+    for k_ in list(failed):
+        if k_ in known:
+            known_seen.append(f"{k_}: {failed[k_][0]}")
+            del failed[k_]
     out = {"status": "ok" if not failed else "violation", "obligations": len(sel), "discharged": len(sel) - len(failed),
-           "names": sorted(sel), "failed": failed}
+           "names": sorted(sel), "failed": failed, "known_findings": known_seen}
     if failed:
         out["detail"] = "; ".join(f"{k}: {v[0]}" for k, v in list(failed.items())[:3])
         os.makedirs(os.path.join(ROOT, "replays"), exist_ok=True)
